@@ -1,16 +1,17 @@
 (* C09 -- Peer failures are contained, reported to senders, and recoverable.
-   Statements only; proofs are in Net/C09RouterProofs.v. [run (init tcp nh) acts] ranges over every
+   Statements only; proofs are in Net/C09RouterProofs.v. [run (init fix_f11 tcp nh) acts] ranges over every
    interleaving of Send threads (one atomic step = one critical section or one connection operation),
    receive loops, handler calls, deferred exits, accepted connections, router close, and peer
-   crashes / restarts, of one surviving router with nh registered error handlers. *)
+   crashes / restarts, of one surviving router with nh registered error handlers; fix_f11 selects the code variant in which a
+   connection whose set-up is refused is closed (landed fix) or dropped open (pinned). *)
 From Coq Require Import List Arith Bool.
 Import ListNotations.
 From Onet Require Import Net.C09Router Net.C09RouterProofs.
 
 (* ---- containment: a Send never blocks and returns, whatever the peers did ------------------------ *)
 
-Theorem c09_send_returns : forall b n acts s p msgs o,
-  run (init b n) acts = Some s -> exists r, snd (send_call s p msgs o) = Some r.
+Theorem c09_send_returns : forall f b n acts s p msgs o,
+  run (init f b n) acts = Some s -> exists r, snd (send_call s p msgs o) = Some r.
 Proof. exact send_call_returns. Qed.
 Print Assumptions c09_send_returns.
 
@@ -20,7 +21,7 @@ Proof. exact send_never_blocks. Qed.
 Print Assumptions c09_send_never_blocks.
 
 (* the invariant used above holds in every reachable state *)
-Theorem c09_invariant : forall b n acts s, run (init b n) acts = Some s -> Inv s.
+Theorem c09_invariant : forall f b n acts s, run (init f b n) acts = Some s -> Inv s.
 Proof. exact reachable_inv. Qed.
 Print Assumptions c09_invariant.
 
@@ -37,8 +38,8 @@ Print Assumptions c09_crash_footprint.
 
 (* ---- errors are reported -------------------------------------------------------------------------- *)
 
-Theorem c09_router_send_fails : forall b n acts s p msgs o,
-  run (init b n) acts = Some s -> listening s p = false ->
+Theorem c09_router_send_fails : forall f b n acts s p msgs o,
+  run (init f b n) acts = Some s -> listening s p = false ->
   (forall c x, In c (table s p) -> conns s c = Some x -> sink x = false) ->
   (table s p = [] \/ tcp s = false \/ o = false) ->
   exists s', send_call s p msgs o = (s', Some RErr) /\ delivered s' = delivered s.
@@ -46,8 +47,8 @@ Proof. exact send_fails_when_nothing_listens. Qed.
 Print Assumptions c09_router_send_fails.
 
 (* every send entry point (with the repaired SendRaw) reports the router's failure *)
-Theorem c09_errors_propagate : forall b n acts s p msgs o,
-  run (init b n) acts = Some s -> listening s p = false ->
+Theorem c09_errors_propagate : forall f b n acts s p msgs o,
+  run (init f b n) acts = Some s -> listening s p = false ->
   (forall c x, In c (table s p) -> conns s c = Some x -> sink x = false) ->
   (table s p = [] \/ tcp s = false \/ o = false) ->
   let r := opt_res (snd (send_call s p msgs o)) in
@@ -86,41 +87,41 @@ Print Assumptions c09_send_to_children_reports.
 
 (* F10: the pinned Context.SendRaw returns nil where the router returned the error *)
 Theorem c09_sendraw_refuted :
-  exists s r, run (init false 0) [ACrash 0] = Some s /\ listening s 0 = false /\ table s 0 = [] /\
+  exists s r, run (init false false 0) [ACrash 0] = Some s /\ listening s 0 = false /\ table s 0 = [] /\
               snd (send_call s 0 [1] false) = Some r /\ r = RErr /\ send_raw false r = ROk.
 Proof. exact sendraw_refuted. Qed.
 Print Assumptions c09_sendraw_refuted.
 
 (* ---- the table is clean, handlers are told ---------------------------------------------------------- *)
 
-Theorem c09_table_clean : forall b n acts s c x err,
-  run (init b n) acts = Some s -> conns s c = Some x -> loop x = LExited err ->
+Theorem c09_table_clean : forall f b n acts s c x err,
+  run (init f b n) acts = Some s -> conns s c = Some x -> loop x = LExited err ->
   ~ In c (table s (cpeer x)) /\ lclosed x = true /\
   calls_of c (calls s) = (if err then map (fun k => (k, cpeer x, c)) (seq 0 (nh s)) else []).
 Proof. exact table_clean. Qed.
 Print Assumptions c09_table_clean.
 
-Theorem c09_handlers_exactly_once : forall b n acts s c x h,
-  run (init b n) acts = Some s -> conns s c = Some x -> loop x = LExited true -> h < nh s ->
+Theorem c09_handlers_exactly_once : forall f b n acts s c x h,
+  run (init f b n) acts = Some s -> conns s c = Some x -> loop x = LExited true -> h < nh s ->
   filter (fun y => fst (fst y) =? h) (calls_of c (calls s)) = [(h, cpeer x, c)].
 Proof. exact handlers_exactly_once. Qed.
 Print Assumptions c09_handlers_exactly_once.
 
-Theorem c09_calls_name_the_peer : forall b n acts s h p c,
-  run (init b n) acts = Some s -> In (h, p, c) (calls s) ->
+Theorem c09_calls_name_the_peer : forall f b n acts s h p c,
+  run (init f b n) acts = Some s -> In (h, p, c) (calls s) ->
   exists x, conns s c = Some x /\ cpeer x = p /\ h < nh s.
 Proof. exact calls_name_the_peer. Qed.
 Print Assumptions c09_calls_name_the_peer.
 
-Theorem c09_table_live : forall b n acts s p c,
-  run (init b n) acts = Some s -> In c (table s p) ->
+Theorem c09_table_live : forall f b n acts s p c,
+  run (init f b n) acts = Some s -> In c (table s p) ->
   exists x, conns s c = Some x /\ cpeer x = p /\ forall e, loop x <> LExited e.
 Proof. exact table_live. Qed.
 Print Assumptions c09_table_live.
 
 (* a stale entry leaves by the steps of its own receive loop alone, other peers' entries untouched *)
-Theorem c09_stale_entry_can_leave : forall b n acts s p c x,
-  run (init b n) acts = Some s -> In c (table s p) -> conns s c = Some x -> loop x = LRun ->
+Theorem c09_stale_entry_can_leave : forall f b n acts s p c x,
+  run (init f b n) acts = Some s -> In c (table s p) -> conns s c = Some x -> loop x = LRun ->
   exists s',
     run s (ARecvErr c EClosed :: repeat (ATrigger c) (if closed s then 0 else nh s) ++ [AExit c]) = Some s' /\
     ~ In c (table s' p) /\ (forall q, q <> p -> table s' q = table s q) /\
@@ -130,8 +131,8 @@ Print Assumptions c09_stale_entry_can_leave.
 
 (* ---- recoverable ------------------------------------------------------------------------------------ *)
 
-Theorem c09_resend_after_restart : forall b n acts s p msgs o,
-  run (init b n) acts = Some s ->
+Theorem c09_resend_after_restart : forall f b n acts s p msgs o,
+  run (init f b n) acts = Some s ->
   closed s = false -> listening s p = true ->
   (forall c x, In c (table s p) -> conns s c = Some x -> sink x = false) ->
   (tcp s = false \/ o = false) -> msgs <> [] ->
@@ -144,7 +145,7 @@ Print Assumptions c09_resend_after_restart.
 (* F11 seen from the survivor: with a connection abandoned unclosed by the stopping peer the
    Send after the restart returns nil and delivers nothing *)
 Theorem c09_resend_abandoned_refuted :
-  exists s s', run (init false 1) abandoned_history = Some s /\
+  exists s s', run (init false false 1) abandoned_history = Some s /\
     closed s = false /\ listening s 0 = true /\ table s 0 = [1] /\
     send_call s 0 [2] false = (s', Some ROk) /\ delivered s' = delivered s.
 Proof. exact resend_abandoned_refuted. Qed.
@@ -169,25 +170,25 @@ Print Assumptions c09_raw_recoverable_iff.
 (* ---- the hypotheses above are satisfiable ------------------------------------------------------------- *)
 
 Example c09_resend_hypotheses_example :
-  exists s, run (init false 1) repaired_history = Some s /\ closed s = false /\ listening s 0 = true /\
+  exists s, run (init true false 1) repaired_history = Some s /\ closed s = false /\ listening s 0 = true /\
             (forall c x, In c (table s 0) -> conns s c = Some x -> sink x = false) /\ tcp s = false.
 Proof. exact resend_hypotheses_example. Qed.
 Print Assumptions c09_resend_hypotheses_example.
 
 Example c09_table_clean_example :
-  exists s x, run (init false 1) repaired_history = Some s /\ conns s 0 = Some x /\ loop x = LExited true /\ nh s = 1.
+  exists s x, run (init true false 1) repaired_history = Some s /\ conns s 0 = Some x /\ loop x = LExited true /\ nh s = 1.
 Proof. exact table_clean_example. Qed.
 Print Assumptions c09_table_clean_example.
 
 Example c09_send_fails_hypotheses_example :
-  exists s, run (init false 1) crashed_history = Some s /\
+  exists s, run (init true false 1) crashed_history = Some s /\
             listening s 0 = false /\ table s 0 = [0] /\ tcp s = false /\
             (forall c x, In c (table s 0) -> conns s c = Some x -> sink x = false).
 Proof. exact send_fails_hypotheses_example. Qed.
 Print Assumptions c09_send_fails_hypotheses_example.
 
 Example c09_stale_entry_example :
-  exists s x, run (init true 2) stale_history = Some s /\
+  exists s x, run (init true true 2) stale_history = Some s /\
               In 0 (table s 3) /\ conns s 0 = Some x /\ loop x = LRun /\ alive x = false.
 Proof. exact stale_entry_example. Qed.
 Print Assumptions c09_stale_entry_example.
